@@ -72,6 +72,10 @@ CHECKS = {
              text="TLC checks per transport kind (pipelined, one-at-a-time, stream/DoQ/DoH) that no reachable wait state lacks a ctx exit (deadline invariant under urgency), the retry bound and that a stale pooled connection is never fatal, and rejects the pre-repair blocking write; on real loopback sockets udp, tcp, tcp+pipeline, tls, tls+pipeline, https and quic upstreams are driven against servers that refuse, accept and stay silent, never reply, send half a frame or garbage, FIN/RST after the query, stall the TLS handshake, close the idle connection between exchanges, kill the connection under five waiters, or stop reading with 4 KB socket buffers and 60 KB queries; TLC checks every exchange end against its deadline + 1 s, that exchanges after the fault on a healthy server succeed, that waiters of a killed connection end within 1 s of the kill, and the dial count bound.",
              note="Scenario classes, not every byte position; h3 upstreams not exercised.",
              ref="DESIGN.md section 4 C14"),
+ "C18": dict(technique="TLA+ models of the close protocol (closed flag, tracked set, late dial) and of start-up with a failing listener (TLC exhaustive; the late dial that ignores the closed flag is rejected) + close scenarios on every upstream kind built by the real NewUpstream and on the in-process router, with a process-wide socket census and the scripted server's view + TLC trace validation",
+             text="TLC exhausts Close racing two dials and two exchanges per transport and start-up with the failing listener at every position; for udp, tcp, tcp+pipeline, tls, tls+pipeline, https and quic upstreams the driver closes the upstream with idle pooled connections, with exchanges in flight against a silent server, while a (delayed) dial is still in progress, and after a timed-out exchange on a healthy connection, closes twice and exchanges afterwards; the real router is started with a failing listener (port in use, unknown protocol, unreadable certificate) at positions 1-3 and, with all 8 listener kinds, closed after traffic; TLC checks that Close returns within 2 s without panic both times, in-flight exchanges end within 1 s of Close, later ones fail fast, the process's socket count returns to the baseline and the server sees no connection left, start-up failure is an error (never a panic) with earlier ports bindable again, and every listener port is bindable after router close.",
+             note="Sequential scenarios (process-wide census); QUIC dials cannot be delayed through the Control hook; h3 not exercised.",
+             ref="DESIGN.md section 4 C18"),
 }
 
 PENDING_REASON = "check under construction in this round (see DESIGN.md section 4); not claimed until its machinery is committed and passes on the unchanged tree"
